@@ -154,7 +154,7 @@ Laws ==
      /\ \A y \in 1..nl :
           LET W == R(0, 1, y)
               N == R(0, 1, 0)
-          IN (Ok(W) /\ Ok(N)) =>
+          IN (Ok(W) /\ Ok(N) /\ ~HasKind({"trap"})) =>
                /\ W.nt = 1
                /\ IsPrefix(SubSeq(W.tr, 1, Len(W.tr) - 1), SubSeq(N.tr, 1, Len(N.tr) - 1))
                /\ Symbolic(W.st) \/ (W.st = N.st /\ W.tr = N.tr)
@@ -201,7 +201,7 @@ AlphaLoops ==
 ItemsLoops == {ITEM("a", 0), ITEM("b", 0)}
 
 \* C02: loop status rules (TickLimit = 3)
-AlphaLoops2 == {MK1, PR, TICK, CNT(1), BRK(1), T0("while"), T0("until"), T0("seq"), T0("or")}
+AlphaLoops2 == {MK1, PR, TICK, CNT(1), T0("while"), T0("until"), T0("seq"), T0("or")}
 
 \* C02: functions, return, command search
 AlphaFuncs ==
